@@ -464,7 +464,43 @@ func genCore(prop string, seed uint64, faulty bool) *Scenario {
 		}
 		sc.Clients = append(sc.Clients, c)
 	}
+	if sc.GlobalCB == "block" {
+		// with a callback that never returns, registration and unregistration
+		// legitimately wait for the callback goroutine: they must carry their
+		// own deadline
+		for ci := range sc.Clients {
+			for oi := range sc.Clients[ci].Ops {
+				op := &sc.Clients[ci].Ops[oi]
+				if (op.K == "register" || op.K == "unregister") && op.Ctx == "" {
+					op.Ctx, op.D = "deadline", int64(g.in(1, 2000))*1e6
+				}
+			}
+		}
+	}
 	if k.lifecycle {
+		hasDone := false
+		for _, c := range sc.Clients {
+			for _, op := range c.Ops {
+				if op.K == "done" || op.K == "bdone" {
+					hasDone = true
+				}
+			}
+		}
+		if hasDone {
+			// once every watcher is Done the monitor is gone and pending calls
+			// may block until their own context ends: give every call one
+			for ci := range sc.Clients {
+				for oi := range sc.Clients[ci].Ops {
+					op := &sc.Clients[ci].Ops[oi]
+					switch op.K {
+					case "report", "breport", "err", "done", "bdone", "setsource", "register", "unregister", "enable":
+						if op.Ctx == "" {
+							op.Ctx, op.D = "deadline", int64(g.in(500, 4000))*1e6
+						}
+					}
+				}
+			}
+		}
 		sc.Late = true
 		if g.pct(50) {
 			sc.Shutdown = "done"
